@@ -121,11 +121,14 @@ pub fn run_tls(m: &TlsMaterial, c: &TlsCase) -> Result<TlsObs, String> {
     let world = Rc::new(RefCell::new(w));
     let (mut shim, log) = ScriptShim::new(clock, c.scripts.clone());
     shim.auth_reject = c.auth_reject;
+    // a backend may build its TLS configuration anew for every connection: a fresh allocation that
+    // dies with the connection (what the library remembers about one must not outlive it)
+    let fresh = |a: &std::sync::Arc<rustls::ServerConfig>| Some(std::sync::Arc::new((**a).clone()));
     shim.tls = match c.server_mode {
-        0 => Some(m.server_optional.clone()),
-        1 => Some(m.server_required.clone()),
-        2 => Some(m.server_noauth.clone()),
-        4 => Some(m.server_chain_optional.clone()),
+        0 => fresh(&m.server_optional),
+        1 => fresh(&m.server_required),
+        2 => fresh(&m.server_noauth),
+        4 => fresh(&m.server_chain_optional),
         _ => None,
     };
     let _ = take_panic();
